@@ -98,11 +98,30 @@ func (g *tokgen) value(depth int) *model.Value {
 // flatOnly: formats that flatten to path = value lines cannot carry an empty container (nor its key)
 var flatOnly = false
 
+func hasScalar(v *model.Value) bool {
+	if v.IsScalar() {
+		return true
+	}
+	for _, e := range v.Elem {
+		if hasScalar(e) {
+			return true
+		}
+	}
+	for _, e := range v.Vals {
+		if hasScalar(e) {
+			return true
+		}
+	}
+	return false
+}
+
 func tokens(v *model.Value, out *[]string) {
 	switch v.K {
 	case model.Map:
 		for i, k := range v.Keys {
-			if flatOnly && !v.Vals[i].IsScalar() && len(v.Vals[i].Elem)+len(v.Vals[i].Keys) == 0 {
+			// formats that print one line per scalar (documented: empty maps and arrays are not encoded) show a key
+			// only on the way to a scalar
+			if flatOnly && !hasScalar(v.Vals[i]) {
 				continue
 			}
 			*out = append(*out, k)
